@@ -39,6 +39,69 @@ class Seq(list):
         return len(self)
 
 
+class LazySeq:
+    """Deferred sequence (LINQ semantics): elements are computed on demand and cached, so
+    ``First(Select(seq, f))`` applies ``f`` to the first element only."""
+
+    def __init__(self, gen):
+        self._gen = iter(gen)
+        self._cache = []
+        self._done = False
+
+    def __iter__(self):
+        i = 0
+        while True:
+            if i < len(self._cache):
+                yield self._cache[i]
+                i += 1
+                continue
+            if self._done:
+                return
+            try:
+                v = next(self._gen)
+            except StopIteration:
+                self._done = True
+                return
+            self._cache.append(v)
+
+    def force(self):
+        for _ in self:
+            pass
+        return self._cache
+
+    def __len__(self):
+        return len(self.force())
+
+    def __getitem__(self, i):
+        if isinstance(i, int) and i >= 0:
+            for k, v in enumerate(self):
+                if k == i:
+                    return v
+            raise IndexError(i)
+        return self.force()[i]
+
+    # so that python-run lambdas (C01 direct side never sees LazySeq; C06 compiled lambdas might)
+    def Select(self, f):
+        return LazySeq(f(x) for x in self)
+
+    def Where(self, f):
+        return LazySeq(x for x in self if f(x))
+
+    def SelectMany(self, f):
+        return LazySeq(y for x in self for y in f(x))
+
+    def First(self):
+        for v in self:
+            return v
+        raise EvalError("First on empty")
+
+    def Count(self):
+        return len(self.force())
+
+
+SEQ_TYPES = (list, tuple, LazySeq)
+
+
 class Rec(dict):
     """dict whose fields can also be read as attributes (the meaning func_adl gives dict literals)."""
 
@@ -109,12 +172,17 @@ class Ev:
 
     def seqop(self, name, seq, args):
         if name in ("Select", "Where", "SelectMany"):
-            if not isinstance(seq, list):
+            if not isinstance(seq, (list, LazySeq)):
                 raise EvalError(f"{name} on non-sequence {type(seq).__name__}")
             if len(args) != 1:
                 raise EvalError(f"{name} arity")
-            return getattr(Seq(seq), name)(args[0])
-        if not isinstance(seq, (list, tuple)):
+            f = args[0]
+            if name == "Select":
+                return LazySeq(f(x) for x in seq)
+            if name == "Where":
+                return LazySeq(x for x in seq if f(x))
+            return LazySeq(y for x in seq for y in _iter_seq(f(x)))
+        if not isinstance(seq, SEQ_TYPES):
             raise EvalError(f"{name} on non-sequence {type(seq).__name__}")
         if name == "Aggregate":
             if len(args) != 2:
@@ -123,9 +191,12 @@ class Ev:
         if args:
             raise EvalError(f"{name} arity")
         if name == "First":
-            return Seq(seq).First()
+            for v in seq:
+                return v
+            raise EvalError("First on empty")
         if name in ("Count", "len"):
             return len(seq)
+        seq = list(seq)
         if name == "Sum":
             return sum(seq)
         if name == "Max":
@@ -172,7 +243,7 @@ class Ev:
                 return self.seqop(f.id, args[0], args[1:])
             if isinstance(f, ast.Attribute) and f.attr in SEQ_METHODS:
                 recv = self.ev(f.value, env)
-                if isinstance(recv, list):
+                if isinstance(recv, (list, LazySeq)):
                     if n.keywords:
                         raise EvalError("keywords on operator")
                     return self.seqop(f.attr, recv, [self.ev(a, env) for a in n.args])
@@ -229,7 +300,13 @@ class Ev:
 
 
 def _tolist(v):
-    return list(v) if isinstance(v, (list, tuple)) else v
+    return list(v) if isinstance(v, SEQ_TYPES) else v
+
+
+def _iter_seq(v):
+    if not isinstance(v, SEQ_TYPES):
+        raise EvalError(f"SelectMany over non-sequence {type(v).__name__}")
+    return v
 
 
 def norm(v):
@@ -327,6 +404,11 @@ def selftest():
         ("Select(EventDataset(), lambda e: (e.x, [e.x]))", L(T(7, L(7)), T(11, L(11)), T(13, L(13)))),
         ("Select(Where(EventDataset(), lambda e: Count(e.jets) > 0), lambda e: First(e.jets).pt)", L(10, 50)),
         ("Select(EventDataset(), lambda e: 2.5 * e.x)", L(("F", "17.5"), ("F", "27.5"), ("F", "32.5"))),
+        # deferred execution: First demands only the first element of a Select / Where / SelectMany
+        ("First(Select(EventDataset(), lambda e: First(e.jets).pt))", 10),
+        ("First(Where(Select(EventDataset(), lambda e: First(e.jets).pt), lambda p: p > 0))", 10),
+        ("First(SelectMany(EventDataset(), lambda e: Select(e.jets, lambda j: First(e.jets).pt)))", 10),
+        ("Count(Where(EventDataset(), lambda e: Count(e.jets) > 0))", 2),
     ]
     bad = []
     for src, exp in cases:
@@ -339,6 +421,7 @@ def selftest():
         ("Select(EventDataset(), lambda e: e.nope)", "pyerr"),
         ("Select(EventDataset(), lambda e: (e.x, 1)[2])", "err"),
         ("Select(EventDataset(), lambda e: e.jets > 1)", "pyerr"),
+        ("Count(Select(EventDataset(), lambda e: First(e.jets).pt))", "err"),
     ]
     for src, cls in errs:
         got = evaluate(parse_expr(src), ds)
